@@ -155,13 +155,10 @@ B("C09", "no-truncation-on-positive-literal", "chalk-engine/src/logic.rs",
                 .canonicalize(context.program().interner(), subgoal)
                 .quantified;""", "C09.TRUNCATE")
 B("C09", "fixed-point-without-ambig", "chalk-recursive/src/recursive.rs",
-  """        old_answer == current_answer || {
-            match &current_answer {
-                Ok(s) => s.is_ambig(),
-                Err(_) => false,
-            }
-        }""",
-  """        old_answer == current_answer""", "C09.FIXPOINT:reached_fixed_point")
+  """                Ok(s) => s.is_ambig(),
+                Err(_) => false,""",
+  """                Ok(_) => false,
+                Err(_) => false,""", "C09.FIXPOINT:reached_fixed_point")
 B("C09", "floundered-loops-again", "chalk-engine/src/solve.rs",
   "                    return f(SubstitutionResult::Floundered, false);",
   "                    SubstitutionResult::Floundered", "C09.LOOP-EXIT")
@@ -242,7 +239,7 @@ B("C15", "asymmetric-error-arm", "chalk-solve/src/infer/unify.rs",
 # ---------------------------------------------------------------- C16
 B("C16", "canonicalizer-numbers-by-var-not-root", "chalk-solve/src/infer/canonicalize.rs",
   "                    ParameterEnaVariable::new(VariableKind::Ty(kind), self.table.unify.find(var));",
-  "                    ParameterEnaVariable::new(VariableKind::Ty(kind), EnaVariable::from(var));", "C16.FIRST-OCCURRENCE:fold_inference_ty")
+  "                    ParameterEnaVariable::new(VariableKind::Ty(kind), crate::infer::EnaVariable::from(var));", "C16.FIRST-OCCURRENCE:fold_inference_ty")
 B("C16", "umap-to-canonical-drops-const-callback", "chalk-solve/src/infer/ucanonicalize.rs",
   """    fn fold_free_placeholder_const(
         &mut self,
@@ -323,12 +320,8 @@ B("C20", "orphan-prefix-inclusive", "chalk-solve/src/clauses/program_clauses.rs"
                             .map(|j| DomainGoal::IsFullyVisible(type_parameters[j].clone()))
                             .chain(Some(DomainGoal::IsLocal(type_parameters[i].clone()))),""", "C20.TRAIT-CLAUSES:upstream-trait")
 B("C20", "upstream-fundamental-not-upstream", "chalk-solve/src/clauses/program_clauses.rs",
-  """            } else {
-                builder.push_fact(DomainGoal::IsUpstream(self_ty.clone()));
-            }""",
-  """            } else {
-                builder.push_fact(DomainGoal::IsLocal(self_ty.clone()));
-            }""", "C20.ADT-CLAUSES:AdtDatum:(upstream=True,fundamental=False)")
+  "                builder.push_fact(DomainGoal::IsUpstream(self_ty.clone()));",
+  "                builder.push_fact(DomainGoal::IsLocal(self_ty.clone()));", "C20.ADT-CLAUSES:AdtDatum:(upstream=True,fundamental=False)")
 
 # ---------------------------------------------------------------- C21
 B("C21", "impls-not-wf-checked", "chalk-integration/src/query.rs",
@@ -339,7 +332,7 @@ B("C21", "impls-not-wf-checked", "chalk-integration/src/query.rs",
             solver.verify_trait_impl(impl_id)?;
         }""", "C21.PIPELINE:checked_program:for id in impl_data")
 B("C21", "wf-env-forgets-trait-ref-types", "chalk-solve/src/wf.rs",
-  "    wc.chain(types_wf)\n}", "    let _ = types_wf;\n    wc\n}", "C21.ENV:impl_wf_environment")
+  "    wc.chain(types_wf)\n}", "    wc.chain(types_wf.take(0))\n}", "C21.ENV:impl_wf_environment")
 B("C21", "collector-skips-ref-pointee", "chalk-solve/src/wf.rs",
   """                mutability.visit_with(self, outer_binder);
                 lifetime.visit_with(self, outer_binder);
